@@ -28,6 +28,15 @@ def _float_leaves_perturbed(r, rng):
     return r
 
 
+def limit_worker_memory():
+    """Pool initializer: an oracle evaluation that explodes must fail inside its worker (MemoryError -> inconclusive), not take the machine down."""
+    import resource
+    try:
+        resource.setrlimit(resource.RLIMIT_AS, (6 << 30, 6 << 30))
+    except (ValueError, OSError):
+        pass
+
+
 class OracleTimeout(Exception):
     pass
 
@@ -49,6 +58,8 @@ def _judge_one(args):
         return _judge_one_inner(args)
     except OracleTimeout:
         return key, 'inconclusive', 'oracle timeout'
+    except MemoryError:
+        return key, 'inconclusive', 'oracle out of memory'
     finally:
         if old is not None:
             signal.setitimer(signal.ITIMER_REAL, 0)
@@ -56,6 +67,23 @@ def _judge_one(args):
 
 
 ORACLE_BUDGET_S = 20
+
+
+def bounded(fn, seconds=10, default=None):
+    """Run fn() in the main thread under a SIGALRM budget (and catching MemoryError); returns default when it does not finish."""
+    import signal
+    try:
+        old = signal.signal(signal.SIGALRM, _on_alarm)
+        signal.setitimer(signal.ITIMER_REAL, seconds)
+    except ValueError:
+        return fn()
+    try:
+        return fn()
+    except (OracleTimeout, MemoryError, RecursionError):
+        return default
+    finally:
+        signal.setitimer(signal.ITIMER_REAL, 0)
+        signal.signal(signal.SIGALRM, old)
 
 
 def _judge_one_inner(args):
@@ -90,7 +118,7 @@ def judge_items(items, seed, tol=None, kind='complex', npoints=3):
     if len(args) < 64:
         return [_judge_one(a) for a in args]
     ctx = mp_.get_context('fork')
-    with ctx.Pool(NCPU) as pool:
+    with ctx.Pool(NCPU, initializer=limit_worker_memory) as pool:
         return pool.map(_judge_one, args, chunksize=max(1, len(args) // (NCPU * 8)))
 
 
